@@ -56,6 +56,17 @@ inductive Transport where
   | unix (peer : String)
 deriving DecidableEq, Repr
 
+/-- The credentials of the process at the other end of the Unix socket (`SO_PEERCRED`, taken when it
+connected): the system user of its effective uid, and its effective gid. -/
+structure PeerCred where
+  user : String
+  gid : Nat
+deriving DecidableEq, Repr
+
+/-- `single_unix_listener` (start.rs): the peer is the user of `cred.uid()`; the gid is not looked
+at. -/
+def transportOf (c : PeerCred) : Transport := .unix c.user
+
 /-- What `httpclient::get_bearer_token` makes of the request: `absent` when there is no
 `Authorization` header, it is not visible ASCII, or it does not start with `Bearer `; otherwise the
 rest of the header, trimmed. -/
